@@ -480,31 +480,39 @@ impl DnsCache {
     /// Removes all records of a service type: PTR, SRV, TXT records and any ADDR records
     /// that are not referenced by any SRV record.
     pub(crate) fn remove_service_type(&mut self, ty_domain: &str) {
-        let Some(ptr_records) = self.ptr.get_mut(ty_domain) else {
-            return;
-        };
+        // The instances of this type: those its PTR records name, and those whose
+        // SRV or TXT records are still cached although their PTR already ran out.
+        let suffix = format!(".{}", ty_domain.to_lowercase());
+        let mut instances: HashSet<String> = self
+            .srv
+            .keys()
+            .chain(self.txt.keys())
+            .filter(|name| name.to_lowercase().ends_with(&suffix))
+            .cloned()
+            .collect();
+        for ptr in self.ptr.get(ty_domain).into_iter().flatten() {
+            if let Some(dns_ptr) = ptr.record.any().downcast_ref::<DnsPointer>() {
+                instances.insert(dns_ptr.alias().to_string());
+            }
+        }
 
         let mut hosts = HashSet::new();
 
-        for ptr in ptr_records.iter() {
-            if let Some(dns_ptr) = ptr.record.any().downcast_ref::<DnsPointer>() {
-                let instance_name = dns_ptr.alias();
-
-                // collect all hostnames from SRV records of this instance
-                if let Some(srv_records) = self.srv.get_mut(instance_name) {
-                    for srv in srv_records.iter() {
-                        if let Some(dns_srv) = srv.record.any().downcast_ref::<DnsSrv>() {
-                            hosts.insert(dns_srv.host().to_lowercase());
-                        }
+        for instance_name in instances.iter() {
+            // collect all hostnames from SRV records of this instance
+            if let Some(srv_records) = self.srv.get_mut(instance_name) {
+                for srv in srv_records.iter() {
+                    if let Some(dns_srv) = srv.record.any().downcast_ref::<DnsSrv>() {
+                        hosts.insert(dns_srv.host().to_lowercase());
                     }
                 }
-
-                // remove all SRV records of this instance
-                self.srv.remove(instance_name);
-
-                // remove all TXT records of this instance
-                self.txt.remove(instance_name);
             }
+
+            // remove all SRV records of this instance
+            self.srv.remove(instance_name);
+
+            // remove all TXT records of this instance
+            self.txt.remove(instance_name);
         }
 
         self.ptr.remove(ty_domain);
